@@ -41,6 +41,12 @@ def table():
         add(nm, {}, lambda r, n: ((_rng_t(r, (n,), -8, 8, 4, torch.float64),), {"weight": _rng_t(r, (n,), 1, 4, 2, torch.float64)}))
     for nm in ("Max", "Min"):
         add(nm, {}, lambda r, n: ((_rng_t(r, (n,), -8, 8, 4),), {}))
+    # float64 data into classes whose registered defaults are float32 (the live dtype drifts from the default)
+    for nm in ("Max", "Min"):
+        add(nm, {}, lambda r, n: ((_rng_t(r, (n,), -8, 8, 4, torch.float64),), {}))
+    add("MeanSquaredError", {"multioutput": "raw_values"}, lambda r, n: ((_rng_t(r, (n, 2), -8, 8, 4, torch.float64), _rng_t(r, (n, 2), -8, 8, 4, torch.float64)), {}))
+    add("R2Score", {"multioutput": "raw_values"}, lambda r, n: ((_rng_t(r, (max(n, 2), 2), -8, 8, 4, torch.float64), _rng_t(r, (max(n, 2), 2), -8, 8, 4, torch.float64)), {}))
+    add("PeakSignalNoiseRatio", {}, lambda r, n: ((_rng_t(r, (n, 2, 2), 0, 8, 8, torch.float64), _rng_t(r, (n, 2, 2), 0, 8, 8, torch.float64)), {}))
     add("Cat", {}, lambda r, n: ((_rng_t(r, (n,)),), {}))
     add("Throughput", {}, lambda r, n: ((n, 0.5),), ) if False else add("Throughput", {}, lambda r, n: ((n, 0.5), {}))
     add("AUC", {}, lambda r, n: ((_rng_t(r, (max(n, 2),)), _rng_t(r, (max(n, 2),))), {}))
